@@ -8,6 +8,11 @@ Runtime monitor over generated methods (see DESIGN.md C03):
 * the same two bounds on thresholds of 1000 s and more (10 000 s and more in the thorough tier) in a small stratum of
   runs of 10-11 thousand (100-110 thousand) ticks: clock strings with four/five integer digits, float sums of 10^4-10^5
   increments;
+* macro stratum: a thresholded line in the body of a macro is judged where the one call of the macro that is in progress
+  is written (Block Time when that call - followed through further calls and Watch/Alarm lines - is nested in the active
+  block, also when Scope Time has just restarted with a Watch inside that block); a line that merely runs beside an active
+  block (handler written outside it, injected code) is judged against what the lexical and the dynamic reading of
+  "inside a block" both demand;
 * the successor of `Wait: d` must start no earlier than d after the Wait's start (engine ticks x 0.1 s) and no later
   than ceil(d/0.1)+1 *interpreter* ticks after it (pauses/holds do not count).
 """
@@ -34,17 +39,31 @@ RULE = ("seeded generator of methods with thresholds on Mark/Wait/Block/UOD line
         "1000-1060 s (not a whole number of seconds, mostly off the tick grid) at root level or inside a block, further "
         "thresholds in other Base units falling due a few seconds later on the scope clock, in the thorough tier a last "
         "threshold of 10 000 s and more, Pause/Hold windows anywhere and around the instant the threshold falls due, "
-        "10-11 thousand (thorough: 100-110 thousand) ticks each. distinct = "
+        "10-11 thousand (thorough: 100-110 thousand) ticks each; plus a macro stratum (24 runs per shard quick, 200 "
+        "thorough): 1-6 macros defined at root level with thresholded Mark/Short/Wait body lines (Base s/min/h, macro "
+        "calling macro), each macro called from one thread of control only - the body of a block (after Waits of 0.5-2.5 s), "
+        "Watch (Block Time/Run Time/FT01/Run Counter conditions) and Alarm bodies written inside the block or a nested "
+        "block, root level before/after the block, a Watch/Alarm written before the block that fires while it is active, "
+        "in 15 % of the runs code injected at tick 5-60; Base lines before calls, same Pause/Hold schedules. distinct = "
         "shape hash of method text + schedule kinds; non-trivial = at least one threshold decision or Wait successor "
         "was judged")
 ASSUMPTIONS = [
     "the clock of a line is the observed float value of the tag the statement designates, read at the instant the "
     "interpreter decides (exactly what it compares via Decimal(str(value))); thresholds are converted with exact "
     "rationals (s/min/h -> s, L/mL -> L)",
-    "lexical reading of 'inside a block': a line is judged against Block Time/Block Volume only if its innermost "
-    "enclosing Block is active and named by the Block tag, against Scope Time/Accumulated Volume only if it has no "
-    "enclosing Block and either the Block tag is empty or names no active block (stale tag); every other combination "
-    "(interrupt body outside a block while the main path is inside one, nested-block mismatches) is counted, not judged",
+    "'inside a block': a line is judged against Block Time/Block Volume only if its innermost enclosing Block is active "
+    "and named by the Block tag, against Scope Time/Accumulated Volume only if it has no enclosing Block and either the "
+    "Block tag is empty or names no active block (stale tag). 'Enclosing' is lexical, except that the body of a macro "
+    "defined at root level is enclosed by whatever encloses the one `Call macro` line of that macro that is in progress "
+    "(started, not completed, handler not dropped), followed through further calls and through Watch/Alarm lines: a macro "
+    "has no scope or clock of its own, its lines run in the scope of the call, and the call site is inside the block "
+    "lexically and dynamically (no call or several calls in progress, macro defined below root level: counted, not judged)",
+    "a line with no enclosing block that runs while a block is active (Watch/Alarm written outside the block, macro called "
+    "from there, injected code) is 'inside a block' under the dynamic reading only: judged is what both readings demand "
+    "(no release/start while neither Scope Time nor Block Time has reached T, no holding back once both have), the "
+    "evaluations on which the two clocks disagree are counted as left open. A line whose own block is active while a "
+    "block nested in it is the innermost one: only the late bound (Block Time tag of the younger inner block has reached "
+    "T, hence the outer block's time too); other nested-block mismatches are counted, not judged",
     "'Wait started' / 'instruction starts' are the started transitions of the nodes (= run-log start times); elapsed "
     "time is counted in engine ticks x 0.1 s, the upper bound ceil(d/0.1)+1 in interpreter ticks (Pause/Hold extend it)",
     "when d is an exact multiple of the 0.1 s interval the Wait loop's comparison `tick_time < start + d - 0.1` is an "
@@ -59,7 +78,15 @@ REQUIRED = {"interp_ticks": 40000, "threshold_evals_judged": 8000, "threshold_st
             "evals_clock_equals_threshold": 30, "evals_released": 1000, "pending_reevaluations": 5000,
             "judged_block_clock": 500, "judged_scope_clock": 1500, "judged_base_min_or_h": 300, "judged_volume": 100,
             "wait_lower_judged": 800, "wait_upper_judged": 600, "wait_judged_with_pause_or_hold_inside": 20,
-            "cases_with_pause_or_hold": 300}
+            "cases_with_pause_or_hold": 300,
+            # macro stratum: macro body lines judged where the call is written, and lines that run beside an active block
+            "macro_stratum_runs": 300, "judged_block_clock_in_macro_body": 1500,
+            "judged_block_clock_in_macro_body_called_from_watch_or_alarm_in_block": 500,
+            "judged_block_clock_in_macro_body_base_min_or_h": 800,
+            "judged_block_clock_in_macro_body_scope_clock_would_decide_otherwise": 200,
+            "judged_scope_clock_in_macro_body": 600,
+            "evals_judged_under_both_readings_line_runs_beside_active_block": 1500,
+            "evals_both_readings_agree_reached": 200, "evals_both_readings_agree_not_reached": 500}
 EXHAUSTIVE_ALL = False
 
 TENTH = Fraction(1, 10)
@@ -194,6 +221,57 @@ class Monitor:
             return MECH_ENDED
         return None
 
+    # ---- where does the line execute? (macro body lines execute where the macro was called)
+    def _all_call_nodes(self, interp):
+        p = self.p
+        out = [n for n in interp._program.get_all_nodes() if isinstance(n, p.CallMacroNode)]
+        for it in getattr(interp, "interrupts", ()):
+            if isinstance(it.node, p.InjectedNode):
+                out += [n for n in it.node.get_child_nodes(recursive=True) if isinstance(n, p.CallMacroNode)]
+        return out
+
+    def live_calls(self, interp, macro_name, depth=0):
+        """`Call macro` lines of this macro that are in progress (started, not completed) on a handler that still
+        exists: a call whose handler was dropped with its block / Watch stays started for ever and is not in progress."""
+        return [c for c in self._all_call_nodes(interp)
+                if c.macro_name == macro_name and c.started and not c.completed and not c.failed and not c.cancelled
+                and self.abandoned(interp, c, depth + 1) is None]
+
+    def enclosing_block(self, interp, node):
+        """-> (innermost Block the line is nested in or None, how, why_not_decidable). Lexical nesting, except that the
+        body of a macro defined at root level is nested where the one call of that macro that is in progress is written
+        (followed through further calls and through Watch/Alarm lines)."""
+        p = self.p
+        how = {"calls": 0, "handler_above_call": False, "origin": "program"}
+        cur = node
+        for _ in range(40):
+            par = cur.parent
+            if par is None:
+                if isinstance(cur, p.InjectedNode):
+                    how["origin"] = "injected"
+                elif not isinstance(cur, p.ProgramNode):
+                    return None, how, "detached_node"
+                return None, how, None
+            if isinstance(par, p.BlockNode):
+                how["origin"] = "block"
+                return par, how, None
+            if isinstance(par, p.MacroNode):
+                if not isinstance(par.parent, p.ProgramNode):
+                    return None, how, "ambiguous_macro_defined_below_root_level"
+                if interp._program.macros.get(par.macro_name) is not par:
+                    return None, how, "ambiguous_macro_definition_superseded"
+                calls = self.live_calls(interp, par.macro_name)
+                if len(calls) != 1:
+                    return None, how, ("ambiguous_macro_body_without_call_in_progress" if not calls
+                                       else "ambiguous_macro_body_with_several_calls_in_progress")
+                how["calls"] += 1
+                cur = calls[0]
+                continue
+            if isinstance(par, p.NodeWithCondition) and how["calls"]:
+                how["handler_above_call"] = True
+            cur = par
+        return None, how, "nesting_too_deep"
+
     # ---- which clock does the statement designate for this line, now?
     def context(self, interp, node):
         p = self.p
@@ -206,25 +284,37 @@ class Monitor:
         if not tags.has(vt_name) or not tags.has(bt_name):
             return None, "clock_tag_missing"
         block_tag = tags["Block"].get_value()
-        lex = next((a for a in node.parents if isinstance(a, p.BlockNode)), None)
+        lex, via, why = self.enclosing_block(interp, node)
+        if why is not None:
+            return None, why
         active = [n for n in interp._program.get_all_nodes()
                   if isinstance(n, p.BlockNode) and n.lock_acquired and not n.block_ended]
         names = {b.name for b in active}
         ended_names = {n.name for n in interp._program.get_all_nodes()
                        if isinstance(n, p.BlockNode) and (n.block_ended or n.completed)}
+        other = None
         if lex is None:
             if block_tag in (None, ""):
                 kind, tag = "scope", tags[vt_name]
             elif block_tag not in names:
                 kind, tag = "stale", tags[vt_name]       # Block tag names no active block: no block designates a clock
             else:
-                return None, "ambiguous_line_outside_block_while_a_block_is_active"
+                # the line is not nested in the active block, it merely runs while that block is active (handler written
+                # outside the block, macro called from such a handler, injected code): the text leaves the clock open
+                # between Scope Time and Block Time - only what holds under both readings is judged
+                kind, tag, other = "either", tags[vt_name], tags[bt_name]
         else:
             if block_tag == lex.name and lex in active:
                 inner = [b for b in active if lex in b.parents]
                 if inner:
                     return None, "ambiguous_nested_block_active_below_lexical_block"
                 kind, tag = "block", tags[bt_name]
+            elif lex in active and base in TIME_F and any(b.name == block_tag and lex in b.parents for b in active):
+                # the line's own block is active but a block nested in it is the innermost one (a handler of the outer
+                # block running while the main path is in the inner block): 'block time' is the outer block's under the
+                # lexical reading, the Block Time tag (inner block's) under the dynamic one. The outer block is the older
+                # one, so once the tag has reached T both have: the late-start bound is judged, the early one stays open
+                kind, tag = "nested", tags[bt_name]
             else:
                 return None, "ambiguous_lexical_block_not_named_by_block_tag"
         unit = tag.unit
@@ -237,14 +327,40 @@ class Monitor:
         try:
             clock = fr(tag.get_value())
             thr = fr(node.threshold) * f
+            clock2 = None
+            if other is not None:
+                if other.unit != unit:
+                    return None, "unit_pair_not_modelled"
+                clock2 = fr(other.get_value())
+            elif kind == "block":
+                clock2 = fr(tags[vt_name].get_value())     # the other clock, for the coverage counters only
         except Exception:
             return None, "non_numeric_clock"
         return {"kind": kind, "clock": clock, "T": thr, "base": base, "tag": tag.name, "raw": tag.get_value(),
-                "block_tag": block_tag, "tag_names_ended_block": block_tag in ended_names}, None
+                "block_tag": block_tag, "tag_names_ended_block": block_tag in ended_names, "via": via,
+                "clock2": clock2, "tag2": other.name if other is not None else None,
+                "raw2": other.get_value() if other is not None else None}, None
 
     def _count_ctx(self, c):
         res = self.res
         res.count({"block": "judged_block_clock", "scope": "judged_scope_clock", "stale": "judged_stale_block_tag"}[c["kind"]])
+        how = c["via"]
+        if how["calls"]:
+            # macro body line judged where its call is written
+            res.count(f"judged_{c['kind']}_clock_in_macro_body")
+            if how["calls"] > 1:
+                res.count("judged_in_macro_body_called_from_macro_body")
+            if c["kind"] == "block":
+                if how["handler_above_call"]:
+                    res.count("judged_block_clock_in_macro_body_called_from_watch_or_alarm_in_block")
+                if c["base"] in ("min", "h"):
+                    res.count("judged_block_clock_in_macro_body_base_min_or_h")
+                if c["clock2"] is not None and (c["clock"] < c["T"]) != (c["clock2"] < c["T"]):
+                    res.count("judged_block_clock_in_macro_body_scope_clock_would_decide_otherwise")
+                    if c["clock"] >= c["T"]:
+                        res.count("judged_block_clock_in_macro_body_block_reached_scope_not")
+                    else:
+                        res.count("judged_block_clock_in_macro_body_scope_reached_block_not")
         if c["base"] in ("min", "h"):
             res.count("judged_base_min_or_h")
         if c["base"] in VOL_F:
@@ -293,6 +409,18 @@ class Monitor:
         c, why = self.context(interp, node)
         if c is None:
             res.count("evals_not_judged_" + why)
+        elif c["kind"] == "either":
+            self.judge_either(node, c, "eval", result)
+        elif c["kind"] == "nested":
+            if c["clock"] >= c["T"]:
+                self.judged += 1
+                res.count("evals_judged_late_bound_only_block_nested_in_the_lines_block_is_innermost")
+                if result:
+                    self.V(None, f"tick {self.rig.k}: line {node.id} ({node.threshold_part.strip()} {node.name}) is held back "
+                                 f"although {c['tag']}={c['raw']!r} (block {c['block_tag']!r}, nested in the line's own, older "
+                                 f"block) has reached the threshold {float(c['T'])} s (Base {c['base']})")
+            else:
+                res.count("evals_left_open_block_nested_in_the_lines_block_is_innermost")
         else:
             res.count("threshold_evals_judged")
             self.judged += 1
@@ -318,6 +446,38 @@ class Monitor:
             self.pending.pop(nid, None)
             self.due[nid] = node
 
+    def judge_either(self, node, c, what, result):
+        """A line that is not nested in the active block but runs while it is active: 'inside a block' can be read
+        lexically (Scope Time) or dynamically (Block Time). Judged is what both readings demand: no release/start while
+        neither clock has reached T, no holding back once both have. Everything in between stays open (counted)."""
+        res = self.res
+        lo, hi = min(c["clock"], c["clock2"]), max(c["clock"], c["clock2"])
+        T = c["T"]
+        desc = (f"line {node.id} ({node.threshold_part.strip()} {node.name}), not nested in the active block "
+                f"{c['block_tag']!r} ({c['via']['origin']}" + (", via macro call" if c["via"]["calls"] else "") + f"): "
+                f"{c['tag']}={c['raw']!r}, {c['tag2']}={c['raw2']!r}, threshold {float(T)} s/L (Base {c['base']})")
+        self.judged += 1
+        if what == "start":
+            res.count("starts_judged_under_both_readings_line_runs_beside_active_block")
+            if hi < T:
+                self.V(None, f"tick {self.rig.k}: started while neither candidate clock has reached the threshold: {desc}")
+            return
+        res.count("evals_judged_under_both_readings_line_runs_beside_active_block")
+        if c["via"]["origin"] == "injected":
+            res.count("evals_judged_under_both_readings_injected_line")
+        if c["via"]["calls"]:
+            res.count("evals_judged_under_both_readings_macro_body_line")
+        if lo >= T:
+            res.count("evals_both_readings_agree_reached")
+            if result:
+                self.V(None, f"tick {self.rig.k}: held back although both candidate clocks have reached the threshold: {desc}")
+        elif hi < T:
+            res.count("evals_both_readings_agree_not_reached")
+            if not result:
+                self.V(None, f"tick {self.rig.k}: released although neither candidate clock has reached the threshold: {desc}")
+        else:
+            res.count("evals_left_open_readings_disagree_line_runs_beside_active_block")
+
     def on_started(self, node):
         p = self.p
         res = self.res
@@ -329,6 +489,10 @@ class Monitor:
             c, why = self.context(interp, node)
             if c is None:
                 res.count("starts_not_judged_" + why)
+            elif c["kind"] == "either":
+                self.judge_either(node, c, "start", None)
+            elif c["kind"] == "nested":
+                res.count("starts_left_open_block_nested_in_the_lines_block_is_innermost")
             else:
                 res.count("threshold_starts_judged")
                 self.judged += 1
@@ -355,6 +519,9 @@ class Monitor:
             self.res.count("wait_not_parsed")
             return
         d = Fraction(Decimal(m.group(1))) * TIME_F[m.group(2)]
+        if not self.one_invocation(node):
+            self.res.count("wait_not_judged_macro_body_with_several_calls_in_progress")
+            return
         sibs = list(node.parent.children)
         i = sibs.index(node)
         succ = next((s for s in sibs[i + 1:] if not isinstance(s, p.WhitespaceNode)), None)
@@ -377,8 +544,18 @@ class Monitor:
         slack = 1 if (q.denominator == 1 and q > 0) else 0
         return bound, slack
 
+    def one_invocation(self, node) -> bool:
+        """False for a macro body line while several calls of the macro are in progress: the invocations share the node
+        state of the body, a Wait started by one of them and a successor started by another are not a pair."""
+        p = self.p
+        interp = self.rig.e.interpreter
+        return all(len(self.live_calls(interp, a.macro_name)) <= 1 for a in node.parents if isinstance(a, p.MacroNode))
+
     def judge_wait(self, w, succ):
         res = self.res
+        if not self.one_invocation(succ):
+            res.count("wait_not_judged_macro_body_with_several_calls_in_progress")
+            return
         dk = self.rig.k - w["k"]
         di = self.itick - w["itick"]
         d = w["d"]
@@ -404,15 +581,22 @@ class Monitor:
         elif di == bound:
             res.count("wait_upper_at_bound")
 
-    def abandoned(self, interp, node) -> str | None:
+    def abandoned(self, interp, node, depth=0) -> str | None:
         p = self.p
-        if node.root is not interp._program:
-            return "other_run"
-        for a in node.parents:
+        parents = node.parents
+        root = parents[-1] if parents else node
+        if root is not interp._program:
+            if not (isinstance(root, p.InjectedNode) and any(it.node is root for it in interp.interrupts)):
+                return "other_run"
+        for a in parents:
             if isinstance(a, p.BlockNode) and a.block_ended:
                 return "block_ended"
             if isinstance(a, p.NodeWithCondition) and not a.interrupt_registered:
                 return "interrupt_unregistered"
+            if isinstance(a, p.MacroNode) and depth < 8:
+                # a macro body line lives as long as a call of the macro is in progress on a live handler
+                if not self.live_calls(interp, a.macro_name, depth):
+                    return "macro_call_dropped"
         return None
 
     def on_itick_end(self, interp):
@@ -726,6 +910,208 @@ def gen_long_case(rnd: random.Random, base: str, place: str, very_long: bool):
             "long": [base, place, bool(very_long)]}
 
 
+# ------------------------------------------------------------------------------------------------
+# macro stratum: thresholded lines in macro bodies, called from block bodies, from Watch/Alarm bodies written inside the
+# block (Scope Time restarts with the handler, Block Time has long passed T - or the other way round for a call early in
+# the block), from root level, from handlers written outside the block that fire while it is active; a few injections
+class GM:
+    """Every macro is called from one thread of control only (the main path, or one Watch/Alarm line, or the injected
+    code): concurrent invocations of one macro share the node state of its body, which is not what this check is about."""
+    WAIT_IN_BLOCK = ("0.5s", "0.8s", "1s", "1.2s", "1.5s", "2s", "2.5s", "0.02min", "0.03 min")
+    TAIL_WAIT = ("1.5s", "2s", "3s", "4s", "0.05min")
+    THR_BIG = {"s": ("1.5", "2", "2.5", "3", "3.5", "1.25"), "min": ("0.03", "0.05", "0.04", "0.025"),
+               "h": ("0.0005", "0.0008", "0.001", "0.00075")}
+    MAX_MACROS = 6
+
+    def __init__(self, rnd: random.Random):
+        self.r = rnd
+        self.lines: list[str] = []
+        self.defs: list[list[str]] = []
+        self.n = 0
+        self.owners = 0
+        self.base = "min"
+        self.macros: list[dict] = []      # name, base its thresholds were written for, owner
+
+    def lab(self):
+        self.n += 1
+        return f"m{self.n}"
+
+    def emit(self, ind, s):
+        self.lines.append(" " * ind + s)
+
+    def thr(self, base=None):
+        base = base or self.base
+        pool = G3.THR[base] + (self.THR_BIG[base] if self.r.random() < 0.5 else ())
+        return self.r.choice(pool)
+
+    def thr_text(self, base=None):
+        r = self.r
+        return f"{self.thr(base)} " + r.choice([f"Mark: {self.lab()}", f"Mark: {self.lab()}", f"Mark: {self.lab()}",
+                                                 "Short", f"Wait: {r.choice(G3.WAITS)}"])
+
+    def thr_line(self, ind, base=None):
+        self.emit(ind, self.thr_text(base))
+
+    def set_base(self, ind, base):
+        if base != self.base:
+            self.base = base
+            self.emit(ind, f"Base: {base}")
+
+    def new_macro(self, owner, base, depth=0):
+        r = self.r
+        m = {"name": f"M{len(self.macros)}", "base": base, "owner": owner}
+        self.macros.append(m)
+        out = [f"Macro: {m['name']}"]
+        for _ in range(r.randint(1, 3)):
+            c = r.choice(["thr", "thr", "thr", "thr", "mark", "waitthr", "call"])
+            if c == "mark":
+                out.append(f"    Mark: {self.lab()}")
+            elif c == "waitthr":
+                out.append(f"    Wait: {r.choice(G3.WAITS)}")
+                out.append("    " + self.thr_text(base))
+            elif c == "call" and depth < 2 and len(self.macros) < self.MAX_MACROS:
+                inner = self.new_macro(owner, base, depth + 1)
+                out.append(f"    Call macro: {inner['name']}")
+                if r.random() < 0.6:
+                    out.append("    " + self.thr_text(base))
+            else:
+                out.append("    " + self.thr_text(base))
+        self.defs.append(out)
+        return m
+
+    def call(self, ind, owner, thresholded=0.15):
+        """`Call macro` of a macro of this thread of control, preceded by the Base line its thresholds were written for."""
+        r = self.r
+        mine = [m for m in self.macros if m["owner"] == owner]
+        if len(self.macros) < self.MAX_MACROS and (not mine or r.random() < 0.35):
+            m = self.new_macro(owner, self.base if r.random() < 0.75 else r.choice(["s", "min", "h"]))
+        elif mine:
+            m = r.choice(mine)
+        else:
+            self.thr_line(ind)
+            return
+        self.set_base(ind, m["base"])
+        pre = f"{self.thr()} " if r.random() < thresholded else ""
+        self.emit(ind, f"{pre}Call macro: {m['name']}")
+
+    def handler_body(self, ind):
+        """Body of a Watch/Alarm: mostly a macro call, sometimes thresholded lines of its own."""
+        r = self.r
+        self.owners += 1
+        owner = self.owners
+        saved = self.base
+        for _ in range(r.randint(1, 2)):
+            c = r.choice(["call", "call", "call", "thr", "waitcall"])
+            if c == "call":
+                self.call(ind, owner)
+            elif c == "thr":
+                self.thr_line(ind)
+            else:
+                self.emit(ind, f"Wait: {r.choice(('0.2s', '0.5s', '1s'))}")
+                self.call(ind, owner)
+        if self.base != saved and r.random() < 0.8:
+            self.set_base(ind, saved)
+        self.base = saved
+
+    def watch(self, ind, in_block):
+        r = self.r
+        conds = ["FT01 > 3 L/h", "FT01 > 3 L/h", "Run Counter >= 0", f"Run Time > {r.choice(('1', '2', '3', '4', '1.5'))} s"]
+        if in_block:
+            conds += [f"Block Time > {r.choice(('0.5', '1', '1.5', '2', '3'))} s"] * 3
+        self.emit(ind, "Watch: " + r.choice(conds))
+        self.handler_body(ind + 4)
+
+    def alarm(self, ind):
+        self.emit(ind, "Alarm: " + self.r.choice(["FT01 > 3 L/h", "FT01 > 5 L/h"]))
+        self.handler_body(ind + 4)
+
+    def block(self, ind, depth):
+        r = self.r
+        pre = f"{self.thr()} " if r.random() < 0.15 else ""
+        self.emit(ind, f"{pre}Block: b{self.lab()}")
+        i2 = ind + 4
+        if r.random() < 0.7:
+            self.emit(i2, f"Wait: {r.choice(self.WAIT_IN_BLOCK)}")
+        for _ in range(r.randint(1, 4)):
+            ch = ["call", "call", "call", "watch", "watch", "watch", "alarm", "thr", "wait", "mark"]
+            if depth == 0:
+                ch += ["block"]
+            c = r.choice(ch)
+            if c == "call":
+                self.call(i2, 0)
+            elif c == "watch":
+                self.watch(i2, True)
+            elif c == "alarm":
+                self.alarm(i2)
+            elif c == "thr":
+                self.thr_line(i2)
+            elif c == "wait":
+                self.emit(i2, f"Wait: {r.choice(self.WAIT_IN_BLOCK)}")
+            elif c == "mark":
+                self.emit(i2, f"Mark: {self.lab()}")
+            else:
+                self.block(i2, depth + 1)
+        if r.random() < 0.8:
+            self.emit(i2, f"Wait: {r.choice(self.TAIL_WAIT)}")       # keeps the block open while its handlers run
+        self.emit(i2, r.choice(["End block", "End block", "End block", "End blocks"])
+                  if r.random() < 0.85 else f"{self.thr()} End block")
+
+    def program(self, with_injection):
+        r = self.r
+        head = []
+        first = r.choice(["s", "s", "s", "min", "min", "h"])
+        if first != "min" or r.random() < 0.7:
+            head.append(f"Base: {first}")
+        self.base = first
+        for _ in range(r.randint(0, 2)):
+            c = r.choice(["mark", "wait", "thr", "call"])
+            if c == "mark":
+                self.emit(0, f"Mark: {self.lab()}")
+            elif c == "wait":
+                self.emit(0, f"Wait: {r.choice(G3.WAITS)}")
+            elif c == "thr":
+                self.thr_line(0)
+            else:
+                self.call(0, 0)
+        if r.random() < 0.4:
+            if r.random() < 0.8:
+                self.watch(0, False)         # written outside the block: fires beside it
+            else:
+                self.alarm(0)
+        self.block(0, 0)
+        for _ in range(r.randint(0, 2)):
+            c = r.choice(["call", "call", "thr", "block"])
+            if c == "call":
+                self.call(0, 0)
+            elif c == "thr":
+                self.thr_line(0)
+            else:
+                self.block(0, 0)
+        inject = None
+        if with_injection:
+            b = self.base
+            k = r.choice(["thr", "call", "markthr"])
+            if k == "call" and len(self.macros) < self.MAX_MACROS:
+                inject = f"Call macro: {self.new_macro('injected', b)['name']}"
+            elif k == "markthr":
+                inject = f"Mark: j0\n{r.choice(G3.THR[b])} Mark: j1"
+            else:
+                inject = f"{r.choice(G3.THR[b])} Mark: j1"
+        defs = [ln for d in self.defs for ln in d]
+        return "\n".join(head + defs + self.lines) + "\n", inject
+
+
+def gen_macro_case(rnd: random.Random, ticks: int):
+    g = GM(rnd)
+    text, code = g.program(rnd.random() < 0.15)
+    base = gen_case(rnd, 0, ticks)                      # FT01 trajectory and Pause/Hold schedule as in the main stratum
+    inject = [[rnd.randint(5, 60), code]] if code else []
+    kinds = [k for k in base["kinds"] if k not in ("Restart", "StopStart")]
+    sched = [e for e in base["sched"] if e[1] not in ("Restart", "Stop", "Start")]
+    return {"text": text, "vol": False, "ft": base["ft"], "tot": [], "sched": sched, "kinds": kinds, "ticks": ticks,
+            "inject": inject, "macro": True}
+
+
 def check_case(case, res: Result):
     from opv.rigs import engine_rig as R
     install()
@@ -751,6 +1137,13 @@ def check_case(case, res: Result):
             for c in sched.get(k, ()):
                 if not rig.user(c):
                     rejected += 1
+            for t, code in case.get("inject", ()):
+                if t == k:
+                    try:
+                        rig.e.inject_code(code)
+                        res.count("injections")
+                    except Exception:
+                        res.count("injections_refused")
             if rig.state in ("Paused", "Holding"):
                 mon.pause_hold_ticks += 1
             rig.hw.inputs["FT01"] = case["ft"][min(k, len(case["ft"]) - 1)]     # the last scripted value persists
@@ -779,6 +1172,10 @@ def check_case(case, res: Result):
         res.count("cases_with_pause_or_hold")
     if "Restart" in case["kinds"] or "StopStart" in case["kinds"]:
         res.count("cases_with_restart_or_stopstart")
+    if case.get("macro"):
+        res.count("macro_stratum_runs")
+        if rig.errors or rig.tick_exc:
+            res.count("macro_stratum_runs_ending_in_error")
     if case.get("long"):
         res.count("long_runs")
         res.count("long_run_engine_ticks", rig.k)
@@ -817,7 +1214,8 @@ def plan(tier, seed):
             b, pl = LONG_COMBOS[(i * n_long + j + seed) % len(LONG_COMBOS)]
             long.append([b, pl, tier != "quick" and j == n_long - 1])
         out.append({"seed": seed * 1000003 + i, "n": per, "max_depth": 3 if tier == "quick" else 4,
-                    "ticks": 150 if tier == "quick" else 220, "long": long})
+                    "ticks": 150 if tier == "quick" else 220, "long": long,
+                    "macro": [24 if tier == "quick" else 200, 160 if tier == "quick" else 220]})
     return out
 
 
@@ -830,6 +1228,10 @@ def run_shard(spec):
     for j, (base, place, very_long) in enumerate(spec.get("long", ())):
         lrnd = random.Random(spec["seed"] * 7919 + 101 + j)       # own stream: the short-run workload is unchanged
         check_case(gen_long_case(lrnd, base, place, very_long), res)
+    n_macro, macro_ticks = spec.get("macro", (0, 0))
+    mrnd = random.Random(spec["seed"] * 104729 + 977)              # own stream as well
+    for _ in range(n_macro):
+        check_case(gen_macro_case(mrnd, macro_ticks), res)
     res.count("hook_hits_eval", HITS["eval"])
     res.count("hook_hits_started", HITS["started"])
     return res
